@@ -73,5 +73,12 @@ func checkSpecs() map[string]CheckSpec {
 	}, Explanation: "Ray-crossing point location and on-line tests executed symbolically on integer-grid rings/lines against exact references; SignOfDet2x2 and OrientationIndex summarised by their specifications, which are checked separately.",
 		Assumptions: []string{"summary: robustdeterminate.SignOfDet2x2 = sign(x1*y2 - y1*x2) (checked against the real loop by HC11_SignOfDet for |v| <= 2^3|2^5 only)", "summary: bigxy.OrientationIndex = sign of the exact determinant (C10, grid <= 2^25)"},
 		Outside: []string{"rings with more vertices than the bound", "SignOfDet2x2 beyond the small grid on which its loop is unrolled", "non-grid floats"}})
+	add(CheckSpec{Property: "C13", Harnesses: []HarnessSpec{
+		{Func: "HC13_Small", Pkg: "xy", Domain: X, Covers: []string{"end"}},
+		{Func: "HC13_Geom", Pkg: "xy", Domain: X, Covers: []string{"end"}},
+		{Func: "HC13_Large", Pkg: "xy", Domain: X, Covers: []string{"end"}},
+	}, Explanation: "xy.ConvexHullFlat / ConvexHull executed symbolically on integer-grid point multisets (de-duplication tree, radial sort with the real sort.Sort, Graham scan, cleanRing, octagon reduction); result compared with exact hull conditions.",
+		Assumptions: []string{"summary: bigxy.OrientationIndex = sign of the exact determinant (C10, grid <= 2^25)"},
+		Outside: []string{"more distinct points than the bound; 6..50 points; more than 53 points", "non-grid floats"}})
 	return m
 }
